@@ -369,19 +369,15 @@ func (g *gateway) close() {
 	g.cancel()
 }
 
-// syncBlocks runs SyncBlocks as a simulated task with faults off (set-up is not under test) and
-// checks that every block was loaded.
+// syncBlocks runs SyncBlocks with the scheduler in pass-through mode and faults off: block
+// synchronisation is set-up, not the property, and its worker pools are fed from map iterations
+// (metas, deletion-mark filter), so which operation is issued first is not a function of the seed
+// whenever a pool is smaller than the number of blocks. Nothing of this phase reaches the event log.
 func (g *gateway) syncBlocks() bool {
-	var err error
-	prev := g.s.FaultsOff
-	g.s.FaultsOff = true
-	g.s.Go("gw-sync", func() { err = g.store.SyncBlocks(g.ctx) })
-	g.s.Loop()
-	g.s.FaultsOff = prev
-	if g.s.Stuck() {
-		g.x.Troublef("sync: scheduler stuck, parked=%v", g.s.ParkedIDs())
-		return false
-	}
+	prevF, prevP := g.s.FaultsOff, g.s.Passthrough
+	g.s.FaultsOff, g.s.Passthrough = true, true
+	err := g.store.SyncBlocks(g.ctx)
+	g.s.FaultsOff, g.s.Passthrough = prevF, prevP
 	if err != nil {
 		g.x.Troublef("sync: SyncBlocks failed without faults: %v", err)
 		return false
@@ -684,4 +680,39 @@ func compareExact(exp map[string]*expSeries, got response, skipChunks bool) (str
 		}
 	}
 	return "", ""
+}
+
+// counter reads one counter (summed over label values) from the store's registry.
+func (g *gateway) counter(name string) int {
+	mfs, err := g.reg.Gather()
+	if err != nil {
+		return 0
+	}
+	n := 0.0
+	for _, mf := range mfs {
+		if mf.GetName() != name {
+			continue
+		}
+		for _, m := range mf.GetMetric() {
+			if m.GetCounter() != nil {
+				n += m.GetCounter().GetValue()
+			}
+		}
+	}
+	return int(n)
+}
+
+// reachProbes records rare branches reached inside the store (from its own metrics).
+func (g *gateway) reachProbes() {
+	for probe, metric := range map[string]string{
+		"gw.lazy_expanded_postings":   "thanos_bucket_store_lazy_expanded_postings_total",
+		"gw.series_refetches":         "thanos_bucket_store_series_refetches_total",
+		"gw.chunk_refetches":          "thanos_bucket_store_chunk_refetches_total",
+		"gw.indexheader_lazy_loads":   "thanos_bucket_store_indexheader_lazy_load_total",
+		"gw.empty_postings":           "thanos_bucket_store_empty_postings_total",
+	} {
+		if n := g.counter(metric); n > 0 {
+			g.x.ProbeN(probe, n)
+		}
+	}
 }
